@@ -489,11 +489,11 @@ def rule_backend(ctx):
     """Shared with C11 (seed C01_5): for numpy arrays the pairwise steps of a tree are executed by the library's
     own matmul-based einsum / tensordot (`implementation="auto"`), so the value a tree returns depends on the
     planner's layouts, reshape guards and the executor's stage order just as C11 does."""
-    from .c11 import rule_layout, rule_exec, rule_pure
+    from .c11 import rule_layout, rule_exec, rule_pure, rule_prims
 
     r = C.reuse_rule(ctx, rule_layout, "C11-LAYOUT", "C01-BACKEND",
                      "the default pairwise implementation (matmul-based) keeps its own conventions", lambda i: True, 9)
-    for src, old in ((rule_exec, "C11-EXEC"), (rule_pure, "C11-PURE")):
+    for src, old in ((rule_exec, "C11-EXEC"), (rule_pure, "C11-PURE"), (rule_prims, "C11-PRIMS")):
         for i in src(ctx).instances:
             c = i.construct.replace(old, "C01-BACKEND")
             if i.verdict == "violation":
